@@ -43,6 +43,8 @@ pk = sorted({d for c in crates for d in deps.get(c, [c])})
 rc, out = sh("cargo test --offline " + " ".join(f"-p {c}" for c in pk) + " 2>&1 | grep -E '^test result|FAILED|panicked|^error' | tail -30", cwd=W)
 failed = [l for l in out.splitlines() if "FAILED" in l or l.startswith("error") or ("test result" in l and " 0 failed" not in l)]
 res["steps"]["existing_tests_with_patch"] = {"packages": pk, "ok": not failed, "tail": out[-600:]}
+for c in ("metrics", "metrics-util", "metrics-exporter-prometheus", "metrics-exporter-dogstatsd", "metrics-exporter-tcp", "metrics-tracing-context"):
+    os.makedirs(f"{W}/{c}/tests", exist_ok=True)
 rc1, out1 = sh(meta["demo_cmd"], timeout=3000)
 res["steps"]["demo_with_patch"] = {"rc": rc1, "failed": rc1 != 0, "tail": out1[-500:]}
 # keep untracked demo files, revert tracked changes
